@@ -186,7 +186,7 @@ impl<B: Sym> HuffMachine<B> {
             let (lo, hi) = guard(|| sc.push(vec![*s])).map_err(|p| {
                 format!("pushing the single in-statistics symbol {:?} panicked (statistics {}): {p}", s, show_counts(&counts))
             })?;
-            if lo != pos || hi < lo {
+            if lo < pos || hi < lo {
                 return Err(format!("one-symbol item {:?} got bit range ({lo}, {hi}) after {pos} bits", s));
             }
             lens.insert(*s, hi - lo);
@@ -273,8 +273,9 @@ impl<B: Sym> HuffMachine<B> {
     fn check_all(&self, what: &str) -> Result<(), String> {
         let mut pos = 0usize;
         for (k, (idx, item)) in self.g.issued.iter().enumerate() {
-            if idx.0 != pos {
-                return Err(format!("after {what}: item #{k} starts at {} but the previous one ended at {pos}", idx.0));
+            // items must not overlap (they need not be contiguous: the property only fixes hi - lo)
+            if idx.0 < pos {
+                return Err(format!("after {what}: item #{k} starts at bit {} inside the previous item, which ends at {pos}", idx.0));
             }
             pos = idx.1;
             let expect_bits: usize = if self.g.coded { item.iter().map(|s| self.g.lens[s]).sum() } else { item.len() };
